@@ -81,14 +81,21 @@ class Frame:
         self.sites = {}
 
 
+# Tier knobs, set by ./check before a rule runs: the thorough tier walks every opaque loop body twice (element, element,
+# end) instead of once and allows proportionally more steps, so that a decision that differs on the second iteration of a
+# loop (state carried over from the first element) is explored too.
+DEFAULT_LOOP_ITERS = 1
+STEP_FACTOR = 1
+
+
 class Interp:
-    def __init__(self, db, hooks, step_limit=4000, depth_limit=8, lenient=False, loop_iters=1):
+    def __init__(self, db, hooks, step_limit=4000, depth_limit=8, lenient=False, loop_iters=None):
         self.db = db
         self.hooks = hooks          # list of (substring, callable(interp, term, argvals) -> value)
-        self.step_limit = step_limit
+        self.step_limit = step_limit * STEP_FACTOR
         self.depth_limit = depth_limit
         self.lenient = lenient
-        self.loop_iters = loop_iters
+        self.loop_iters = DEFAULT_LOOP_ITERS if loop_iters is None else loop_iters
         self.choices = []
         self.pos = 0
         self.widths = []
